@@ -46,6 +46,29 @@ M = [
     ("c12-ignore-caller-mass", "system.py", "    if system_molweight:\n        estimated_weights.append(system_molweight)", "    if system_molweight and len(molecules) < 2:\n        estimated_weights.append(system_molweight)", ["C12"]),
     ("c12-setter-factor", "mixture.py", "            self._relative_mass = 100 * self._absolute_mass / mass", "            self._relative_mass = self._absolute_mass / mass", ["C12"]),
     ("c14-uniform-pick", "system.py", "            mol_idx = rng.choice(\n                range(len(relative_fractions)), p=relative_fractions / np.sum(relative_fractions)\n            )\n            mol = self._molecules[mol_idx]\n            mol_gen = mol.generate(rng=rng)\n            generated_total_mass", "            mol_idx = rng.choice(range(len(relative_fractions)))\n            mol = self._molecules[mol_idx]\n            mol_gen = mol.generate(rng=rng)\n            generated_total_mass", ["C14"]),
+    ("c20-cache-ignores-param-file", "forcefield_helper.py", "        or nb_filename != _global_nonbonded_itp_file\n", "", ["C20"]),
+    ("c20-shortest-rule", "forcefield_helper.py", "                if len(match_rule) > len(final_match):", "                if len(match_rule) < len(final_match):", ["C20"]),
+    ("c20-no-completeness", "forcefield_helper.py", "        if len(final_dict) != mol.GetNumAtoms():\n            raise FfAssignmentError(final_dict)\n", "", ["C20"]),
+    ("c20-no-refusal", "mol_gen.py", "        if not self.fully_generated:\n            raise RuntimeError(\n                \"Forcefield assignment is only possible for fully generated molecules\"\n            )\n", "", ["C20"]),
+    ("c15-accept-unbalanced", "token.py", '        if big_smiles_ext.count("(") != big_smiles_ext.count(")"):', '        if False:', []),
+    ("c15-no-two-atom-check", "token.py", '                                if "." not in elementB:\n                                    raise RuntimeError(', '                                if False:\n                                    raise RuntimeError(', ["C15"]),
+    ("c15-unknown-dist-default", "distribution.py", '    raise RuntimeError(f"Unknown distribution type {distribution_text}.")', '    return Gauss("gauss(100, 10)")', ["C15"]),
+    ("c15-no-translen-check", "stochastic.py", "            if bd.transitions is not None and len(bd.transitions) != len(self.bond_descriptors):", "            if False:", ["C15"]),
+    ("c15-negative-generable", "bond.py", "        return self.weight >= 0", "        return True", ["C15"]),
+    ("c15-text-after-mixture", "molecule.py", "            if len(end_text) > 0:", "            if False:", ["C15"]),
+    ("c15-percent-range", "mixture.py", "            if rel_mass < 0 or rel_mass > 100:", "            if rel_mass < 0:", ["C15"]),
+    ("c15-prefix-mismatch", "stochastic.py", "                ) != self.left_terminal.generate_string(False):", "                ) != self.left_terminal.generate_string(False) and False:", ["C15"]),
+    ("c15-missing-prefix", "stochastic.py", '                if str(self.left_terminal) != "[]":', '                if False:', ["C15"]),
+    ("c15-loop-again", "system.py", "            if end_pos <= 0:", "            if end_pos < 0:", ["C15"]),
+    ("c01-bd-weight-int-print", "bond.py", '                string += f"{self.weight}"', '                string += f"{self.weight:.3g}"', ["C01"]),
+    ("c01-drop-zero-weight", "bond.py", "        if extension and (self.transitions is not None or self.weight != 1.0):", "        if extension and (self.transitions is not None or (self.weight != 1.0 and self.weight != 0.0)):", ["C01"]),
+    ("c01-mixture-print-percent-first", "mixture.py", "            if self.absolute_mass is None:\n                return f\".|{self.relative_mass}%|\"", "            if self.relative_mass is not None:\n                return f\".|{self.relative_mass}%|\"", ["C01"]),
+    ("c01-schulz-zimm-swapped-print", "distribution.py", 'return f"|schulz_zimm{self._Mw, self._Mn}|"', 'return f"|schulz_zimm{self._Mn, self._Mw}|"', ["C01"]),
+    ("c01-erase-keeps-dist", "stochastic.py", "            string += self.distribution.generate_string(extension)", "            string += self.distribution.generate_string(True)", ["C01"]),
+    ("c02-id-two-digits", "bond.py", "            self.descriptor_id = int(id_str.strip())", "            self.descriptor_id = int(id_str.strip()[:2])", ["C02"]),
+    ("c02-list-weight-first", "bond.py", "                self.weight = self.transitions.sum()", "                self.weight = self.transitions[0]", ["C02", "C01"]),
+    ("c02-branch-revert", "token.py", '    for char in string:\n        if char == "(":\n            atom_to_bond.append(atom_to_bond[-1])\n        elif char == ")":\n            atom_to_bond.pop(-1)', '    for _ in range(string.count("(")):\n        atom_to_bond.append(atom_to_bond[-1])\n    for _ in range(string.count(")")):\n        atom_to_bond.pop(-1)', ["C02"]),
+    ("c02-gauss-params-swapped", "distribution.py", "        self._mu, self._sigma = make_tuple(self._raw_text[len(\"gauss\") :])", "        self._sigma, self._mu = make_tuple(self._raw_text[len(\"gauss\") :])", ["C02", "C09"]),
     ("c03-dollar-bonds-angle", "bond.py", '        if self.descriptor == "$" and other.descriptor == "$":\n            return True', '        if self.descriptor == "$" and other.descriptor in ("$", "<"):\n            return True', ["C03"]),
     ("c03-id-above-9", "bond.py", "        if self.descriptor_id != other.descriptor_id:", '        if self.descriptor_id != other.descriptor_id and (self.descriptor_id == "" or other.descriptor_id == "" or self.descriptor_id < 10):', ["C03"]),
 ]
